@@ -61,8 +61,22 @@ NEEDS = {
  'C16-placeholder-registry-across-calls': 'two validations in one process through the species-inferred mapper where the later file re-uses an unknown gene name of an earlier, successfully validated file',
  'C19-otf-query-marker-dir-outside-private-dir': 'mapping with on-the-fly markers failing in its SECOND sub-stage (query-marker selection or writing its JSON)',
  'C20-otf-schema-driven-sanitising': 'successful cloud_safe run of the on-the-fly mapper with an explicit reference_markers.precomputed_path_list',
+ 'C02-vote-dtype-from-subset-size': 'bootstrap_iteration >= 256 at a node with at most 255 sampled markers, and a (cell, leaf) pair collecting at least 256 votes',
+ 'C08-duplicates-count-towards-min-markers': 'a multi-child non-root parent whose marker list repeats genes, with distinct usable genes < min_markers <= entries counted with repeats',
+ 'C09-ge1-isclose-window': 'a labelled cell with a gene whose CPM lies within about 15 ppm of 1 without being exactly 1 (one count in a cell of 999 990 or 1 000 010 total counts; log2CPM input within 1.1e-5 of 1.0)',
+ 'C11-exact-thresholds-inclusive': 'exact penetrance and a statistic tied EXACTLY at a strict threshold (q1 = 0.5 with half of an even-sized cluster expressing, fold = 1.0, qdiff = 0.5)',
+ 'C12-override-dict-remembers-default': 'the caller re-uses one n_per_utility_override dict object across two selections in one process with different default targets',
+ 'C13-serial-transpose-window-off-by-one': 'more than 100 stored entries, a memory budget below the number of entries, and a column that starts exactly on the last stored entry of an interior load chunk',
+ 'C15-csv-float32-downcast': 'a confidence value that float32 and float64 round differently to four decimals: vote shares k/160 (k/800, k/1600), or hand-made values such as 0.99995',
+ 'C17-flatten-union-after-drop-level': 'flatten=True together with a drop_level that exists in the taxonomy, and a marker gene listed only under the dropped level',
 }
 HISTORY = {
+ 'C02-vote-dtype-from-subset-size': 'OBSERVED MISS by C02 (C03 catches it through the shared configuration generator: probability 0.0, correlation 6.3): the shared generator was widened to 32 / 160 / 256 / 300 iterations in 4% of the runs before the change was run, but C02 sets its own iteration count (1..9, because every drawn subset is recorded and re-voted) and still missed. C02 now draws 256 or 300 iterations in 4% of its runs; caught with 42 + 6 occurrences per quick run',
+ 'C09-ge1-isclose-window': 'PREDICTED MISS: exact CPM = 1 cells were planted, near-1 cells were not. C09 now plants cells 10-20 ppm off the cutoff on either side (raw) and values 1 +- 8e-6 (declared log2CPM); the band inside the code\'s own 1e-6 float tolerance is still not probed (ASSUMPTIONS)',
+ 'C12-override-dict-remembers-default': "OBSERVED MISS: every selection got a fresh override table; and the first widening -- an earlier selection with ANOTHER default target on the same dict object, result ignored -- used a larger target, which only over-covers (the property says 'at least'). The earlier call now uses a smaller target (1) whenever the judged target is above 1; the oracle works on a copy of the table taken before; caught with 37 occurrences per quick run",
+ 'C15-csv-float32-downcast': 'PREDICTED MISS: needs vote shares on a 4-decimal rounding boundary, i.e. iteration counts such as 160; see C02-vote-dtype-from-subset-size',
+ 'C17-flatten-union-after-drop-level': 'OBSERVED MISS: the shared configuration generator was widened to set flatten and drop_level together in 5% of the runs, but C17 composes its own pairs (drop | flatten | unknown level). It now has a fourth mode flatten_drop whose reference side is the flattened taxonomy with the union of ALL marker lists; caught with 19 occurrences per quick run',
+ 'C11-exact-thresholds-inclusive': 'NOT CAUGHT, by decision: the change turns ">" into ">=" at the strict thresholds and is visible only for a statistic tied exactly at a threshold. C11 deliberately leaves (pair, gene) entries within 1e-7 of a threshold undecided, because the property text names floors "on or above" but does not say which side an exact tie at a strict threshold falls on, and the repository\'s documentation (>=) and code (>) disagree. Demanding either would be demanding more than the property states',
  'C04-raw-stats-cache-by-path': 'OBSERVED MISS by C04 (caught by C11 as it stood, through the history replay: every scenario of a shard re-uses the input paths): C04 compared executions of one scenario with each other, and all of them saw the same stale cache. C04 now runs a HISTORY TWIN in a quarter of the scenarios -- a decoy world goes through the stage at the same input paths first, and kernel 0 reads an identical copy of the real inputs under paths the process has never seen -- so a result that depends on what was read from a path before shows up as a digest difference inside one scenario',
  'C05-shared-csr-copy-by-path': 'PREDICTED MISS: no scenario kept an iterator alive while the file was replaced. C05 now has a read - replace (atomic rename) - read step in 20% of the iterator scenarios; caught with 95 occurrences per quick run',
  'C20-otf-schema-driven-sanitising': 'PREDICTED MISS: the on-the-fly configurations never named precomputed_path_list explicitly; 40% now do',
